@@ -67,6 +67,7 @@ func (m *monInput) Commit(e *pipeline.Event) {
 	info := pipeline.VerifInfo(e)
 	m.eng.rec.add(Rec{K: "commit", Src: uint64(e.SourceID), Off: e.Offset, Stream: strings.Clone(info.StreamName), Kind: info.Kind})
 }
+
 // PassEvent mimics the file input after a restart: a record at or below the
 // saved offset of its stream was committed before and is refused.
 func (m *monInput) PassEvent(e *pipeline.Event) bool {
